@@ -642,6 +642,9 @@ func main() {
 		"payload-streamable": func(r *vh.Run) { payloadMatrices(r, kit.SSSE) },
 		"payload-legacy":     func(r *vh.Run) { payloadMatrices(r, kit.LSSE) },
 		"payload-stdio":      func(r *vh.Run) { payloadMatrices(r, kit.Stdio) },
+		"errpath-streamable": func(r *vh.Run) { errPaths(r, kit.SSSE) },
+		"errpath-legacy":     func(r *vh.Run) { errPaths(r, kit.LSSE) },
+		"errpath-stdio":      func(r *vh.Run) { errPaths(r, kit.Stdio) },
 		"client-stdin": func(r *vh.Run) {
 			r.Sample(map[string]interface{}{"scenario": "client-stdin", "runs": []interface{}{
 				clientStdin(r, 4, r.Pick(800, 5000), 1<<30),
@@ -661,7 +664,7 @@ func main() {
 		cr.ExportAndExit()
 	}
 	r := vh.NewRun("C09", "exploration")
-	names := []string{"client-stdin", "client-http", "payload-streamable", "payload-legacy", "payload-stdio", "stdio-held", "stdio-free", "get", "post", "legacy", "get-lifecycle-held", "get-lifecycle-free", "get-broadcast", "post-unjoined"}
+	names := []string{"client-stdin", "client-http", "payload-streamable", "payload-legacy", "payload-stdio", "stdio-held", "stdio-free", "get", "post", "legacy", "get-lifecycle-held", "get-lifecycle-free", "get-broadcast", "post-unjoined", "errpath-streamable", "errpath-legacy", "errpath-stdio"}
 	var wg sync.WaitGroup
 	results := make([]*vh.ChildResult, len(names))
 	for i, name := range names {
@@ -693,8 +696,9 @@ func main() {
 	}
 	var keys []string
 	sort.Strings(keys)
-	r.Finish("streams: stdio server stdout (responses from per-request goroutines + server-issued roots/list requests), Streamable GET stream (notifications + server requests from 2-8 goroutines), POST SSE stream (notifications from 2-4 goroutines inside one handler, then the result), legacy SSE stream (responses, notifications, 2 ms keep-alive comments), and the CLIENT-to-server direction against scripted servers written without the library: stdio client stdin (4 and 8 application goroutines sending tools/call, list/get/read requests and bursts of roots/list_changed notifications while the scripted server floods the client with tens of thousands of server-issued requests of 9 kinds - roots/list with and without params, sampling/createMessage small and 8 KiB, elicitation/create, ping, unknown method, a client-to-server method in the wrong direction, a method name with line breaks; numeric and string ids - so that the read loop writes result and method-not-found answers concurrently with the application goroutines; the child records its stdin split at LF only), Streamable and legacy SSE clients (same workload; frame = POST body; server-issued requests arrive on the GET / event stream). For the client direction the multiset is: initialize and initialized once, every application request once (by nonce), as many roots/list_changed as sends that returned nil, exactly one answer per server-issued id and no answer with another id. Writers are parked by the yield controller between payload and newline (stdio.write.mid) and between the lines of one event (sse.write.afterid / sse.write.beforeterm) and released in seeded permutations, plus free-running stress. Payloads contain CR, LF, CRLF, U+2028/2029, SSE field names, and sizes around 4096 and 65536. A strict LF splitter / WHATWG SSE reader must recover exactly the multiset of nonce-carrying messages written, each frame one JSON value. Life cycle of a Streamable stream (writers.go): per session the listening stream is opened, reopened with Last-Event-ID (superseding the old stream or after the client dropped it; the server writes its stream/resumed notice) and ended by DELETE while 2-8 senders send notifications and server requests to the session - held variant: the life-cycle action and the senders in three seeded orders with the writers parked between the lines of their event and released one at a time once the number parked is stable; free variant: a reconnect loop (open, receive 1-30 events, reopen with the last id) under constant sending with random delays at the yield points and registrations running on the server. Broadcasts: 2-4 goroutines broadcasting to 4-8 sessions next to per-session senders, half of the sessions DELETEd meanwhile; a broadcast's copies over all sessions must equal the count the API returned. POST-SSE unjoined: the handler starts 2-8 goroutines that send in-call notifications and returns while some of them are still sending; the stream must hold the final answer once and every notification whose send returned nil, each in an event of its own. For these scenarios the multiset is taken over all streams of a session: a send that reported success must be recovered exactly once, a refused send never, a send that failed inside the write 0 or 1 times; a message may be missing only if it can have been written to a stream the client cut, after everything that arrived on that stream. Distinct = (stream scenario, writer count) and, for the held life cycle, (action, order, writer count). Payload dimension (payloadspace.go): 147 payload classes that are special to a layer a frame passes on its way out - formatting (percent signs in every position: bare, verbs, %%, %20, trailing, before a JSON quote / escape / line break, hundreds in a row), template syntax ($1, ${x}, {{.}}), string escaping (backslashes, quotes, literal \\u-escapes, JSON text inside a string), NUL / C0 / C1 / DEL / ESC, invalid UTF-8 incl. encoded lone surrogates, noncharacters, astral and bidi characters, SSE field syntax inside data (data:, id:, event:, retry:, leading colon, leading / trailing blanks and tabs, BOM), stdio line syntax (tab, FF, VT, NEL, LS/PS, CR / LF / CRLF runs), single lines of 70-150 KB and thousands of short lines - each sent in every message kind with free text (tool results: text, isError text, two texts, structured content keys and values; prompt and resource results incl. the URI; JSON-RPC errors carrying a tool / prompt / resource handler's message or echoing an unknown tool / prompt / URI; string ids of results and of errors; in-call notifications: custom param, method name, object key, progress message, log message; in-call server-issued requests on stdio: param, method, key; out-of-band notifications and server-issued requests: param, method, key, string id; broadcast) on the POST SSE stream, the GET listening stream, the legacy SSE stream (2 ms keep-alive comments) and stdio stdout, 6 writers at a time (thorough: the whole matrix with 2, 8 and 16 writers). Oracle there: every frame is one JSON value and the multiset of recovered messages equals the multiset written BY CONTENT (canonical JSON after decoding); the message written for a payload is the decoded frame of a probe with a harmless token on the quiet stream with the token replaced by the payload as encoding/json delivers it. Distinct = (stream, message kind) with at least one message recovered with equal content; monitors payload_msgs_recovered_equal|stream|kind count them. Client direction: the application's requests carry the same classes in tool / prompt name, arguments, resource URI and cursor, the roots provider returns roots named after them, the scripted server uses them in string ids and method names; recovered free text, roots and the method named in a method-not-found answer are compared with what was passed.",
+	r.Finish("streams: stdio server stdout (responses from per-request goroutines + server-issued roots/list requests), Streamable GET stream (notifications + server requests from 2-8 goroutines), POST SSE stream (notifications from 2-4 goroutines inside one handler, then the result), legacy SSE stream (responses, notifications, 2 ms keep-alive comments), and the CLIENT-to-server direction against scripted servers written without the library: stdio client stdin (4 and 8 application goroutines sending tools/call, list/get/read requests and bursts of roots/list_changed notifications while the scripted server floods the client with tens of thousands of server-issued requests of 9 kinds - roots/list with and without params, sampling/createMessage small and 8 KiB, elicitation/create, ping, unknown method, a client-to-server method in the wrong direction, a method name with line breaks; numeric and string ids - so that the read loop writes result and method-not-found answers concurrently with the application goroutines; the child records its stdin split at LF only), Streamable and legacy SSE clients (same workload; frame = POST body; server-issued requests arrive on the GET / event stream). For the client direction the multiset is: initialize and initialized once, every application request once (by nonce), as many roots/list_changed as sends that returned nil, exactly one answer per server-issued id and no answer with another id. Writers are parked by the yield controller between payload and newline (stdio.write.mid) and between the lines of one event (sse.write.afterid / sse.write.beforeterm) and released in seeded permutations, plus free-running stress. Payloads contain CR, LF, CRLF, U+2028/2029, SSE field names, and sizes around 4096 and 65536. A strict LF splitter / WHATWG SSE reader must recover exactly the multiset of nonce-carrying messages written, each frame one JSON value. Life cycle of a Streamable stream (writers.go): per session the listening stream is opened, reopened with Last-Event-ID (superseding the old stream or after the client dropped it; the server writes its stream/resumed notice) and ended by DELETE while 2-8 senders send notifications and server requests to the session - held variant: the life-cycle action and the senders in three seeded orders with the writers parked between the lines of their event and released one at a time once the number parked is stable; free variant: a reconnect loop (open, receive 1-30 events, reopen with the last id) under constant sending with random delays at the yield points and registrations running on the server. Broadcasts: 2-4 goroutines broadcasting to 4-8 sessions next to per-session senders, half of the sessions DELETEd meanwhile; a broadcast's copies over all sessions must equal the count the API returned. POST-SSE unjoined: the handler starts 2-8 goroutines that send in-call notifications and returns while some of them are still sending; the stream must hold the final answer once and every notification whose send returned nil, each in an event of its own. For these scenarios the multiset is taken over all streams of a session: a send that reported success must be recovered exactly once, a refused send never, a send that failed inside the write 0 or 1 times; a message may be missing only if it can have been written to a stream the client cut, after everything that arrived on that stream. Distinct = (stream scenario, writer count) and, for the held life cycle, (action, order, writer count). Payload dimension (payloadspace.go): 147 payload classes that are special to a layer a frame passes on its way out - formatting (percent signs in every position: bare, verbs, %%, %20, trailing, before a JSON quote / escape / line break, hundreds in a row), template syntax ($1, ${x}, {{.}}), string escaping (backslashes, quotes, literal \\u-escapes, JSON text inside a string), NUL / C0 / C1 / DEL / ESC, invalid UTF-8 incl. encoded lone surrogates, noncharacters, astral and bidi characters, SSE field syntax inside data (data:, id:, event:, retry:, leading colon, leading / trailing blanks and tabs, BOM), stdio line syntax (tab, FF, VT, NEL, LS/PS, CR / LF / CRLF runs), single lines of 70-150 KB and thousands of short lines - each sent in every message kind with free text (tool results: text, isError text, two texts, structured content keys and values; prompt and resource results incl. the URI; JSON-RPC errors carrying a tool / prompt / resource handler's message or echoing an unknown tool / prompt / URI; string ids of results and of errors; in-call notifications: custom param, method name, object key, progress message, log message; in-call server-issued requests on stdio: param, method, key; out-of-band notifications and server-issued requests: param, method, key, string id; broadcast) on the POST SSE stream, the GET listening stream, the legacy SSE stream (2 ms keep-alive comments) and stdio stdout, 6 writers at a time (thorough: the whole matrix with 2, 8 and 16 writers). Oracle there: every frame is one JSON value and the multiset of recovered messages equals the multiset written BY CONTENT (canonical JSON after decoding); the message written for a payload is the decoded frame of a probe with a harmless token on the quiet stream with the token replaced by the payload as encoding/json delivers it. Distinct = (stream, message kind) with at least one message recovered with equal content; monitors payload_msgs_recovered_equal|stream|kind count them. Client direction: the application's requests carry the same classes in tool / prompt name, arguments, resource URI and cursor, the roots provider returns roots named after them, the scripted server uses them in string ids and method names; recovered free text, roots and the method named in a method-not-found answer are compared with what was passed. Error paths of the writers (errpaths.go): 37 value classes the application can hand to the library - values encoding/json refuses (NaN / +Inf / -Inf as float64, float32, in a slice, deep in a struct, behind 70 KB of text, behind a pointer; chan, func, complex, chan in a struct, bool map keys, a func after multi-line text; MarshalJSON returning an error, truncated JSON, two values, nothing, a string with raw LF / CR-LF, SSE syntax, failing on odd / even calls only; a MarshalText key that fails; RawMessage truncated, empty, LF only, garbage lines, behind a pointer; pointer, map and slice cycles) and values that encode but whose MarshalJSON / RawMessage text is spread over lines with LF, CR-LF and blank lines - each in every message kind that carries application values (tool result structuredContent nested and top level, _meta, a Content of the application's own type; prompt result _meta; in-call notification param, _meta, progress value; server-issued request params from inside a call and out of band; out-of-band notification param, _meta; broadcast) on the POST SSE stream, the GET listening stream, the legacy SSE stream (2 ms keep-alive comments) and stdio stdout, 4 cases at a time, while 2 goroutines of the same handler send ordinary notifications on the same stream and 3 background writers send ordinary notifications, server requests and calls before, during and after. Oracle there: whatever the server writes for such a value (an error answer, nothing, a message) every frame is one JSON object, no event has two id: lines or a line that is no field, no POST stream / stdout ends inside a frame, every ordinary message whose send reported success is recovered exactly once (missing only judged after a fence through every pump arrived), a message reported as sent with a value that encodes is recovered once and carries the same JSON value, no request with an encodable result gets two answers. Distinct = (stream, message kind) with at least one case judged on a stream shown complete next to recovered ordinary messages; monitors errpath_outcome|stream|value family|what the server did.",
 		[]string{"life-cycle scenarios: this library version writes no keep-alive comments on Streamable streams and announces no list_changed on registration (the counters get_stream_comments and server_own_messages|*list_changed show what was seen; such lines would be judged for framing only); the stream/resumed notice is not promised by the statement, so its count is reported and not judged; a server request sent with an already cancelled context counts as written only because a probe at start saw such a request arrive", "with the write locks in place only one writer can be parked inside a frame; the evidence gauges writers_parked_* report how many were simultaneously inside", "stdout is an in-memory writer whose Write calls are atomic (like write(2) below PIPE_BUF); the client-stdin scenario uses a real pipe",
 			"payload dimension: a message kind carries its payload opaquely, i.e. the message for payload P is the message the same handler / API call produces for a harmless token with the token replaced by P after one trip through encoding/json (invalid UTF-8 -> U+FFFD); a kind whose probe does not carry the token is judged for framing only (noted); a send the API reported as failed (or a server-issued request that was not answered within 4 s) counts as 0 or 1 copies; a written message is reported missing only after the exchange has ended (POST) or a fence written afterwards through the same pump has arrived, otherwise inconclusive; the method named in a client's method-not-found answer is judged only if the client is seen to name a harmless method verbatim",
+			"error paths: what the server does with a value it cannot encode is left open by the statement (error answer, nothing, a message without the value: all accepted and counted); a server request whose API call ran into its deadline counts as 0 or 1 copies; blocks of field lines without a data line dispatch nothing in a conforming reader and are only counted (errpath_sse_blocks_without_data)",
 			"client direction: there is no yield point between the writes of one client frame, so interleavings inside a client frame are explored by volume only (free-running stress, window one syscall wide); an API call that reports a send failure leaves open whether its message was written (0 or 1 copies accepted); an empty stdin line carries no message and is skipped (counted in cli_empty_lines); when the scripted server's 20 s no-progress watchdog ends the wait for answers, missing answers are inconclusive"})
 }
